@@ -6,6 +6,9 @@ import (
 
 func boolOrErr(b bool, err error) string {
 	if err != nil {
+		if b { // the documentation promises `false` together with the error
+			return "ERR-WITH-TRUE"
+		}
 		return "ERR"
 	}
 	if b {
